@@ -25,7 +25,8 @@ class RunRecord:
                  "obj_violations", "obj_ctx_kinds", "pool_sections", "greedy", "cfg_before", "cfg_after",
                  "task_before", "task_after", "steps", "digest", "sched_digest", "counters", "nevents", "switches",
                  "deadlock", "step_limit", "thread_crashes", "events", "optimizer", "config_obj", "task_obj",
-                 "result_dump", "raised_injected", "decisions_len", "nthreads", "init_positions_by_ctx")
+                 "result_dump", "raised_injected", "decisions_len", "nthreads", "init_positions_by_ctx", "ctx_firsts",
+                 "base_init")
 
     def __init__(self):
         for s in self.__slots__:
@@ -187,6 +188,7 @@ def finish_record(sim, rec):
     rec.thread_crashes = sim.obs.get("thread_crashes", [])
     rec.events = sim.events
     rec.decisions_len = len(sim.decisions)
+    rec.ctx_firsts = [(c.pid, c.parent, c.label, tuple(c.first)) for c in sim.ctxs]
     rec.nthreads = len(sim.threads)
 
 
@@ -200,6 +202,9 @@ def run_scenario(desc, keep_events=0, event_kinds=None, pre_ops=None) -> RunReco
     cfg = make_config(desc["optimizer"], desc["config"])
     opt = cls(cfg)
     rec.optimizer, rec.config_obj, rec.task_obj = opt, cfg, task
+    import pyvolutionary.abstract as _abs
+    rec.base_init = getattr(cls._init_population, "__wrapped__", cls._init_population) is \
+        getattr(_abs.OptimizationAbstract._init_population, "__wrapped__", _abs.OptimizationAbstract._init_population)
     sim = new_sim(desc, keep_events, event_kinds)
     install_observers(sim, rec)
     rec.cfg_before = dump_model(cfg)
